@@ -61,7 +61,7 @@ CHECKS = {
         test="TestC09",
         quick=dict(procs=6, checks=2500),
         thorough=dict(procs=32, checks=15000, timeout=1500),
-        rule="rapid draws (type with ~55% required fields, ids from the boundary set around presence-set word edges and index growth; value with zeroed required fields; message with required fields dropped or retyped at any nesting level; "
+        rule="rapid draws (type with ~55% required fields, ids from the boundary set around presence-set word edges and index growth; value with zeroed required fields; message with required fields dropped or retyped at any nesting level and, in half of those structs, other known (preferably required) fields repeated as many times as fields were taken away - a second occurrence must not stand in for a missing field - plus harmless repeats in complete structs; "
              "0-3 earlier decodes using the same ids); non-trivial = a required id >=64 or adjacent to a 64-bit word boundary or a required field in a nested struct, and >=1 required field dropped/retyped; distinct by hash(type signature, message)",
         technique="property-based testing (rapid): schema-aware message mutation (drop/retype required fields), reference-decoder verdict on the error kind and the named field; encoder output parsed for required ids",
         level_text="Generated types/messages; the decode verdict (success vs INVALID_DATA naming a field that is really missing) is compared with the reference decoder after preceding decodes that set the same presence bits; the encoder's output is parsed and every required id must be present with its declared wire type at every struct level.",
@@ -126,7 +126,7 @@ CHECKS = {
         thorough=dict(procs=16, checks=4000, timeout=2400),
         no_universe=True,
         mem_gb=8,
-        rule="rapid draws (curated recursive type RecS/RecL/RecSet/RecMV/RecMK/RecLL/RecH/RecMix, nesting pattern of 1-4 steps among struct->struct, ->list->struct, ->set->struct, ->map value, ->map key, ->list->list->struct, ->list->map->set->struct; depth from a boundary list 1..10^6 or uniform; "
+        rule="rapid draws (curated recursive type RecS/RecL/RecSet/RecMV/RecMK/RecLL/RecH/RecMix/RecWide, 0-40 variable-length sibling fields (known strings/list/map for RecWide, unknown strings otherwise) in every struct on the way down and 1000-3000 repeats in flat messages, nesting pattern of 1-4 steps among struct->struct, ->list->struct, ->set->struct, ->map value, ->map key, ->list->list->struct, ->list->map->set->struct; depth from a boundary list 1..10^6 or uniform; "
              "all-known or the deep part inside an unknown struct/list/map field at level <=45; trailing bytes); the message is synthesised directly as bytes; non-trivial = >=40 levels or a mixed pattern; distinct by (type, pattern, levels, position)",
         technique="property-based testing (rapid): synthesised deep messages, depth-band oracle (<=48 accept with the reference value, >=1024 DEPTH_LIMIT, in between either) in a worker with a bounded stack",
         level_text="Deep messages are generated for every recursive shape and position; up to 3000 levels the reference decoder follows (value equality below 49 levels, DEPTH_LIMIT-or-correct-value in the open band, DEPTH_LIMIT from 1024 levels), beyond that only the error kind is checked. The worker runs with SetMaxStack(256 MiB) so unbounded recursion dies and is reported from the journal.",
@@ -136,7 +136,7 @@ CHECKS = {
         test="TestC16",
         quick=dict(procs=6, checks=1500),
         thorough=dict(procs=32, checks=10000, timeout=1500),
-        rule="rapid draws (type, value incl. holder bytes, extra buffer space 0/1/64/4096; a second type incl. nocopy fields with a well-formed or mutated message for the decode half); "
+        rule="rapid draws (type, value incl. holder bytes, extra buffer space 0/1/64/4096; a second type incl. nocopy fields with a well-formed or mutated message for the decode half, decoded once from a guarded buffer and once from the binary field of a previously decoded envelope, optionally with a failing call in between); "
              "non-trivial = value reaches a map or pointer and extra>0; distinct by hash(type signature, canonical output, extra)",
         technique="property-based testing (rapid): deep snapshot (lifted value + address/len/cap of every pointer, slice, string, map header) before/after each call, guarded-arena oracle for bytes beyond n, repeat-encode canonical equality, input-buffer immutability on success and error",
         level_text="Every EncodedSize/EncodeObject call (by pointer and by value) is bracketed by deep snapshots of the argument; the buffer lives in a guarded arena and only buf[:n] may change; three encodes must be canonically equal; DecodeObject must leave its input (and its neighbourhood) bit-identical on success and on error.",
